@@ -4,7 +4,7 @@ from __future__ import annotations
 
 import ast
 
-from ..core.repo import (AnalysisError, Repo, call_name, calls_in, definitions, dotted, is_const,
+from ..core.repo import (AnalysisError, Repo, call_name, calls_in, definitions, dotted, func_params, is_const,
                          kwarg, names_in, unparse, walk_no_nested_defs)
 from ..domains.algnf import NotArithmetic, Rat, from_ast
 
@@ -123,12 +123,14 @@ def _bin(check, repo, mod) -> None:
                  fail_detail="the reduced axes are not the second member of each (blocks, factor) pair")
     red = [c for c in calls_in(fn) if call_name(c) in ("np.sum", "np.add.reduce", "np.nansum", "np.mean")
            and c.args and unparse(c.args[0]) == "array_view"]
+    red += [c for c in calls_in(fn) if isinstance(c.func, ast.Attribute) and c.func.attr in ("sum", "mean", "nansum") and unparse(c.func.value) == "array_view"]
     if len(red) != 1:
         raise AnalysisError("Dataset.bin: block reduction call not found")
     r = red[0]
     kws = {k.arg for k in r.keywords}
     narrow = kwarg(r, "dtype")
-    ok = call_name(r) == "np.sum" and unparse(kwarg(r, "axis") or ast.Constant(None)) == "tuple(reduce_axes)" \
+    is_sum = call_name(r) == "np.sum" or (isinstance(r.func, ast.Attribute) and r.func.attr == "sum" and unparse(r.func.value) == "array_view")
+    ok = is_sum and unparse(kwarg(r, "axis") or ast.Constant(None)) == "tuple(reduce_axes)" \
         and (narrow is None or not any(isinstance(x, ast.Attribute) and x.attr == "dtype" for x in ast.walk(narrow)))
     check.decide(ok, "C06-R2", "Dataset.bin: blocks are summed with np.sum over the reduced axes in the default accumulator", unparse(r), mod.line(r),
                  fail_detail=f"`{unparse(r)}`: " + ("accumulating in the input dtype wraps around for narrow integer/bool data — "
